@@ -141,6 +141,8 @@ type issuer struct {
 	gate     chan struct{} // first request waits for it
 	realtime bool
 	anchorsV atomic.Int64
+	// probe: set in renewal scenarios; called by the issuer while a renewal request is in flight
+	probe func(k int, lastGood int64)
 }
 
 var errIssuer = errors.New("issuer: scripted failure")
@@ -163,6 +165,19 @@ func (is *issuer) request(ctx context.Context, csrDER []byte) ([]*x509.Certifica
 			<-is.gate
 		}
 	} else if !is.realtime {
+		if is.probe != nil {
+			// a real issuer client authenticates the renewal with the current identity, and other
+			// consumers keep asking for the SVID while the request is on its way
+			var lastGood int64
+			is.mu.Lock()
+			for _, q := range is.reqs[:k] {
+				if q.ok {
+					lastGood = q.serial
+				}
+			}
+			is.mu.Unlock()
+			is.probe(k, lastGood)
+		}
 		time.Sleep(time.Millisecond)
 	}
 	csr, err := x509.ParseCertificateRequest(csrDER)
@@ -304,7 +319,7 @@ func TestCheck(t *testing.T) {
 	defer rec.Close()
 	initCA()
 	rec.Note("rule", "a case is one scenario against the real SPIFFE object in a synctest bubble with a scripted issuer signing real SVIDs: (order) each of the six first-call orders of Run / Ready / GetX509SVID from separate goroutines x initial fetch succeeding or failing x consumer additionally parked inside GetX509SVID while it holds the read lock; (renewal) a seeded script of 3-8 issuer outcomes (validity windows from 2 s to 30 days, already past half-life, expired, not yet valid; failures: an issuer error, an empty answer, or a signed chain without a usable SPIFFE ID) with the virtual clock advanced in seeded steps of seconds to hours, optionally writing the identity to a directory and rotating the trust anchors. Non-trivial = the issuer received at least one request; distinct = distinct scenario description.")
-	rec.Note("require", []string{"order.get_first", "order.ready_first", "order.run_first", "order.initial_fetch_failed", "order.second_run_refused", "order.consumer_parked_with_rlock", "renewal.requests", "renewal.on_time", "renewal.retry_after_failure", "renewal.served_latest_checked", "renewal.fresh_keys_checked", "renewal.unusable_answer_scripted", "files.sets_checked", "files.undisturbed_after_failed_fetch"})
+	rec.Note("require", []string{"order.get_first", "order.ready_first", "order.run_first", "order.initial_fetch_failed", "order.second_run_refused", "order.consumer_parked_with_rlock", "renewal.requests", "renewal.on_time", "renewal.retry_after_failure", "renewal.served_latest_checked", "renewal.fresh_keys_checked", "renewal.unusable_answer_scripted", "renewal.get_during_inflight_renewal", "files.sets_checked", "files.undisturbed_after_failed_fetch"})
 	ps := plans()
 	rec.Planned(len(ps))
 	for idx, pl := range ps {
@@ -576,6 +591,33 @@ func runRenewal(t *testing.T, idx int, rng *mon.RNG) {
 		}
 		s := newSpiffe(is, dp)
 		src := s.SVIDSource()
+		is.probe = func(k int, lastGood int64) {
+			if lastGood == 0 || w.viol {
+				return
+			}
+			type res struct {
+				v   *x509svid.SVID
+				err error
+			}
+			got := make(chan res, 1)
+			go func() {
+				v, err := src.GetX509SVID()
+				got <- res{v, err}
+			}()
+			q := mon.Quiesce()
+			select {
+			case r := <-got:
+				if r.err != nil || r.v == nil {
+					w.violation("renewal/get-error-during-renewal", fmt.Sprintf("GetX509SVID returned %v while renewal request #%d was in flight and an SVID had been fetched", r.err, k))
+				} else if sn := r.v.Certificates[0].SerialNumber.Int64(); sn != lastGood {
+					w.violation("renewal/served-svid-not-latest", fmt.Sprintf("while renewal request #%d was in flight GetX509SVID served serial %d, the most recently fetched good one is %d", k, sn, lastGood))
+				} else {
+					rec.Count("renewal.get_during_inflight_renewal", 1)
+				}
+			default:
+				w.violation("renewal/get-blocked-while-renewal-in-flight", fmt.Sprintf("GetX509SVID does not return while renewal request #%d is with the issuer (every goroutine parked; mutex-blocked: %d %v): the issuer's own use of the current identity would deadlock the rotation", k, q.MutexBlocked, q.MutexFrames))
+			}
+		}
 		ctx, cancel := context.WithCancel(context.Background())
 		runDone := make(chan error, 1)
 		go func() { runDone <- s.Run(ctx) }()
